@@ -2,7 +2,7 @@
     Statements only; proofs live in Store/PathsProofs.v and Store/KeyedProofs.v. *)
 From Coq Require Import List Arith Bool ZArith.
 From LV Require Import Base.Sexp Store.Paths Store.PathsProofs Store.Keyed Store.KeyedProofs
-                       Store.Sim Store.SimProofs.
+                       Store.Sim Store.SimProofs Store.SymProofs.
 Import ListNotations.
 
 (** a write through the field at path p wakes a reader of the field at path r iff one of the
@@ -303,3 +303,13 @@ Theorem C16_store_reader_queued_first :
     exists q1 q2, st_queue (notify_all s (notified WRoot [])) = q1 ++ q2 /\ In e1 q1 /\ ~ In e2 q1 /\ In e2 q2.
 Proof. exact store_reader_queued_first. Qed.
 Print Assumptions C16_store_reader_queued_first.
+
+(** a write always wakes the readers of the written field itself, and the wake relation is
+    symmetric: a write at p wakes the readers of r exactly when a write at r wakes those of p *)
+Theorem C16_write_wakes_own_readers : forall p, wakes p p = true.
+Proof. exact wakes_self. Qed.
+Print Assumptions C16_write_wakes_own_readers.
+
+Theorem C16_wakes_symmetric : forall p r, wakes p r = wakes r p.
+Proof. exact wakes_sym. Qed.
+Print Assumptions C16_wakes_symmetric.
